@@ -23,6 +23,7 @@ NTAB_FIT = 7             # fit: steps 2^-3 .. 2^-9
 H0_ACQ = 2.0 ** -4        # first step in the unit cube; lattice inputs are >= 0.2 from the faces
 REL_TOL = 1e-5            # |g - g_fd| <= REL_TOL * max(scale, |g|)  (+ 4 * Richardson error estimate)
 RESOLVE = 1e-6            # a difference quotient is "resolved" if its error estimate <= RESOLVE * max(scale, |g_fd|)
+NONTRIVIAL = 1e-2         # a comparison is non-trivial if |g_fd| >= NONTRIVIAL*scale: a 0.1 % error would be flagged
 VAL_RTOL = 1e-12          # value-with-gradient == value alone (same arithmetic, different code path)
 ACQ_VAL_RTOL = 1e-9
 CF_RTOL = 1e-9            # closed forms
@@ -148,12 +149,13 @@ def check_fit_point(prob, x, cov, viols, only_coord=None):
         diff = abs(gi - gfd)
         cov.outcome(f"fit:compared:{kind}")
         if gi != 0.0:
+            cov.extra["fit_nonzero_gradient"] = cov.extra.get("fit_nonzero_gradient", 0) + 1
+        if abs(gfd) >= NONTRIVIAL * 1.0:
             cov.add("distinct_nontrivial")
-        if abs(gfd) >= 1e-3:
-            cov.extra["fit_discriminating"] = cov.extra.get("fit_discriminating", 0) + 1
+            cov.extra["fit_nontrivial"] = cov.extra.get("fit_nontrivial", 0) + 1
+            cov.sample({"part": "fit", "cfg": cfg, "x": rep["x"], "coord": label, "grad": gi, "fd": gfd,
+                        "fd_err": err}, limit=3)
         cov.extra["max_fit_rel_dev"] = max(cov.extra.get("max_fit_rel_dev", 0.0), diff / max(1.0, abs(gi)))
-        cov.sample({"part": "fit", "cfg": cfg, "x": rep["x"], "coord": label, "grad": gi, "fd": gfd, "fd_err": err},
-                   limit=3)
         if diff > tol:
             r = dict(rep, coord=ix)
             viols.append(Violation(PROP, _fit_key("gradient", cfg, label),
@@ -346,13 +348,15 @@ def run_acq(task):
                 diff = abs(gi - gfd)
                 cov.outcome(f"acq:compared:{hname}")
                 if gi != 0.0:
+                    cov.extra["acq_nonzero_gradient"] = cov.extra.get("acq_nonzero_gradient", 0) + 1
+                if abs(gfd) >= NONTRIVIAL * scale:
                     cov.add("distinct_nontrivial")
-                if abs(gfd) >= 1e-2 * scale:
-                    cov.extra["acq_discriminating"] = cov.extra.get("acq_discriminating", 0) + 1
-                cov.extra["max_acq_rel_dev"] = max(cov.extra.get("max_acq_rel_dev", 0.0),
-                                                   diff / max(scale, abs(gi)))
-                cov.sample({"part": "acq", "cfg": cfg, "head": hname, "input": xin, "coord": i, "grad": gi,
-                            "fd": gfd, "fd_err": err, "scale": scale}, limit=6)
+                    cov.extra["acq_nontrivial"] = cov.extra.get("acq_nontrivial", 0) + 1
+                    cov.sample({"part": "acq", "cfg": cfg, "head": hname, "input": xin, "coord": i, "grad": gi,
+                                "fd": gfd, "fd_err": err, "scale": scale}, limit=6)
+                if diff <= tol:
+                    cov.extra["max_acq_rel_dev_passing"] = max(cov.extra.get("max_acq_rel_dev_passing", 0.0),
+                                                               diff / max(scale, abs(gi)))
                 if diff > tol:
                     clause = "gradient"
                     if hname.startswith("EIpu") and _cost_clamped(prob, hname, x):
@@ -390,9 +394,15 @@ def run(tier, seed):
     acfgs = acq_configs(tier)
     tasks = [{"cfg": c, "seed": seed} for c in fcfgs + acfgs]
     tasks.sort(key=lambda t: -_cost(t["cfg"]))
+    fit_s, acq_s = [], []
     for cov, viols in pmap(_task, tasks):
+        for smp in cov.samples:
+            (fit_s if smp.get("part") == "fit" else acq_s).append(smp)
+        cov.samples = []
         res.cov.merge(cov)
         res.violations.extend(viols)
+    # a few written-out comparisons of both parts (first of the smallest and of the largest configurations)
+    res.cov.samples = fit_s[-2:] + fit_s[:1] + acq_s[:2] + acq_s[-1:]
     from ..c09_models import spy_self_test
     if not res.cov.extra.get("spy_calls") or not spy_self_test():
         res.violations.append(Violation(PROP, "harness:jitter-spy-not-effective",
@@ -408,8 +418,10 @@ def run(tier, seed):
         "central-difference tableau (fit: steps 2^-3..2^-9, acquisition: 2^-4..2^-11) of add_regularizer_to_criterion evaluated alone. Part B (acquisition): "
         "model lattice x fantasies {none, 3 with 1 or 2 pending} x hyper-parameter settings x heads {EI, LCB, EIpu e=1, "
         "EIpu e=.5, EIpu with 1-column cost, CEI feasible, CEI no feasible best} x inputs {0.2,0.5,0.8}^d x coordinate. "
-        "distinct_nontrivial = comparisons actually made (no jitter, difference quotient resolved) whose returned gradient "
-        "coordinate is non-zero; each is a distinct (config, data, point, coordinate).")
+        "distinct_nontrivial = comparisons actually made (no jitter, difference quotient resolved) whose derivative is at "
+        "least 1e-2 of the tolerance scale (so a 0.1 % relative error of that coordinate would be flagged); each is a "
+        "distinct (config, data, point, coordinate). Comparisons with a merely non-zero gradient are counted in "
+        "fit_nonzero_gradient / acq_nonzero_gradient.")
     res.bounds = {"tier": tier, "fit_configs": len(fcfgs), "acq_configs": len(acfgs), "n_max": 4, "d_max": 2,
                   "rel_tol": REL_TOL, "resolve": RESOLVE, "h0_fit": H0_FIT, "h0_acq": H0_ACQ,
                   "richardson_steps_acq": num.NTAB, "richardson_steps_fit": NTAB_FIT}
